@@ -203,6 +203,26 @@ func c10Check(c *mon.Ctx, s string, origin string, budget uint64) {
 				break
 			}
 		}
+		// exported parser options that do not change the language (a user
+		// store, explicit defaults, the default entry point, no recovery of
+		// panics - there are none to recover) must neither panic nor change
+		// what is accepted, nor lose the error
+		for vi, o := range [][]grammar.Option{{grammar.GlobalStore("k", 1)}, {grammar.Recover(false)}, {grammar.AllowInvalidUTF8(false)}, {grammar.Entrypoint("Input")}, {grammar.GlobalStore("a", nil), grammar.GlobalStore("b", "x"), grammar.Recover(false)}, {grammar.Recover(true), grammar.Entrypoint("")}} {
+			nval, nerr, npan, nsite := parsePublic(s, o...)
+			if npan != "" {
+				dd := d()
+				dd["panic"], dd["option_list"] = npan, vi
+				c.Violation("C10 panic api=grammar.Parse site="+nsite+" neutral-parser-options", "grammar.Parse panicked when given exported parser options", dd)
+				break
+			}
+			if vi != 5 && ((nerr == nil) != (perr == nil) || (nerr == nil && nval == nil)) {
+				dd := d()
+				dd["error_with_options"], dd["error_without"], dd["option_list"] = fmt.Sprint(nerr), fmt.Sprint(perr), vi
+				c.Violation("C10 Parse(neutral options) acceptance differs", "grammar.Parse with exported options that do not change the language accepts something else than without them (or returns neither tree nor error)", dd)
+				break
+			}
+		}
+		c.Count("neutral_parser_options_checked")
 		ev0, cerr0, pan0, site0 := createEval(s, bexpr.WithMaxExpressions(0))
 		if pan0 != "" {
 			dd := d()
